@@ -62,7 +62,9 @@ class EngineBase:
             g = goal_of(goal)
         else:
             g = goal
-        self.obligations.append(Obligation(name, kind, self.hyps(), g, where, self.path_id, info))
+        ob = Obligation(name, kind, self.hyps(), g, where, self.path_id, info)
+        ob.probes = getattr(self, 'probes', {})
+        self.obligations.append(ob)
 
     def check_or_raise(self, ok, exc, node, what):
         """implicit exception: `ok` must hold or Python raises `exc`.
